@@ -470,7 +470,7 @@ func ruleWaitImplementors() check.Rule {
 func ruleCallbackReentrancy() check.Rule {
 	return check.Rule{
 		Name: "CALLBACK-REENTRANCY",
-		Doc:  "for every subject, the locks taken by the teardown it registers on a subscriber's subscription (observer removal) are not held while it notifies a stored observer outside its Subscribe method: Unsubscribe called from inside a callback runs that teardown synchronously and would otherwise dead-lock on the subject's non-reentrant mutex",
+		Doc:  "for every subject, the locks taken by the teardown it registers on a subscriber's subscription (observer removal) are not held while it notifies a stored observer outside its Subscribe method, nor at the Add call that registers that teardown (Add runs it at once when the subscription is already closed): Unsubscribe called from inside a callback runs that teardown synchronously and would otherwise dead-lock on the subject's non-reentrant mutex",
 		Run: func(c *check.Ctx) {
 			m := c.M
 			p := m.Obj.Ro
@@ -494,6 +494,25 @@ func ruleCallbackReentrancy() check.Rule {
 							return true
 						}
 						// the teardown: a literal, a named closure or a method value, and the helper methods it calls
+						mine := lockset.Set{}
+						defer func() {
+							// Add runs the teardown at once when the subscription is already closed (a subscriber that
+							// unsubscribed during the replay, a closed Subscriber handed in as the destination): the
+							// registration itself must not be made under a lock the teardown takes
+							if len(mine) == 0 {
+								return
+							}
+							c.Inc("subject_teardown_registrations", 1)
+							akey := fmt.Sprintf("ro.%s.%s/add-outside-teardown-lock", tname, fd.Name.Name)
+							held := h.heldNorm(p, call)
+							for k := range mine {
+								if held[k] {
+									c.Violation(akey, call.Pos(), "%s registers the subscriber's teardown with Add while holding %s, which that teardown takes: Add runs the teardown immediately when the subscription is already closed (the subscriber unsubscribed during the replay above, or a closed Subscriber was passed as the destination), and the goroutine blocks on the mutex it holds itself — Subscribe never returns and the subject stays locked", fd.Name.Name, k)
+									return
+								}
+							}
+							c.OK(akey, call.Pos(), "the teardown is registered outside the locks it takes (%s)", mine)
+						}()
 						for _, b := range resolveFuncBodies(m, p, call.Args[0]) {
 							inspectTransitive(m, b.Pkg, b.Body, 3, func(q *packages.Package, y ast.Node) bool {
 								c2, ok := y.(*ast.CallExpr)
@@ -510,6 +529,7 @@ func ruleCallbackReentrancy() check.Rule {
 								}
 								if fs != nil {
 									tdLocks["recv."+fs.Sel.Name] = true
+									mine["recv."+fs.Sel.Name] = true
 								}
 								return true
 							})
@@ -579,6 +599,14 @@ func heldThroughInlining(m *model.Model, h *heldDB, p *packages.Package, n ast.N
 		}
 		cl := model.Callee(info, call)
 		d := m.Decls[cl]
+		// the locks held where the helper or closure is called are held inside it as well
+		for _, pk := range m.Pkgs {
+			if pk.TypesInfo == info {
+				for k := range h.heldAt(pk, call) {
+					defer func(k string) { held[k] = true }(k)
+				}
+			}
+		}
 		if cl == nil || d == nil {
 			continue
 		}
@@ -643,6 +671,68 @@ func ruleNoEmitUnderTeardownLock() check.Rule {
 				}
 				c.Inc("scs_with_locking_teardown", 1)
 				cnt := 0
+				// wait-for edges inside the operator: lock M is acquired while L is held (L -> M). A goroutine that
+				// holds L may then be parked until whoever holds M lets go; when M is held across a notification, L is
+				// blocked for the duration of that notification as well (lock coupling: Delay's timers)
+				type edge struct {
+					from, to string
+					pos      token.Pos
+				}
+				var edges []edge
+				ast.Inspect(sc.Lit, func(x ast.Node) bool {
+					lit, ok := x.(*ast.FuncLit)
+					if !ok {
+						return true
+					}
+					for _, op := range lockResult(sc.Pkg, lit).Ops {
+						if op.Kind != "Lock" && op.Kind != "RLock" {
+							continue
+						}
+						if innermostFunc(m, sc.Pkg, op.Node) != ast.Node(lit) {
+							continue // reported with the nested literal
+						}
+						for l := range h.heldAt(sc.Pkg, op.Node) {
+							if l != op.Key {
+								edges = append(edges, edge{l, op.Key, op.Node.Pos()})
+							}
+						}
+					}
+					return true
+				})
+				blockedBy := map[string]edge{} // lock -> the edge that makes it wait behind a notification
+				emitHeld := map[string]token.Pos{}
+				for _, e := range sc.Emits {
+					if !e.ToDest || e.Forwarder {
+						continue
+					}
+					for k := range heldThroughInlining(m, h, e.Pkg, e.Node, e.Stack) {
+						if _, ok := emitHeld[k]; !ok {
+							emitHeld[k] = e.Pos
+						}
+					}
+				}
+				for changed := true; changed; {
+					changed = false
+					for _, ed := range edges {
+						_, direct := emitHeld[ed.to]
+						_, indirect := blockedBy[ed.to]
+						if _, done := blockedBy[ed.from]; !done && (direct || indirect) {
+							if _, isDirect := emitHeld[ed.from]; !isDirect {
+								blockedBy[ed.from] = ed
+								changed = true
+							}
+						}
+					}
+				}
+				for k, lockPos := range tdLocks {
+					ed, ok := blockedBy[k]
+					if !ok {
+						continue
+					}
+					cnt++
+					key := fmt.Sprintf("%s/teardown-lock-waits-behind-notification#%d", sc, cnt)
+					c.Report(armed, key, ed.pos, "%s is acquired here while %s is held, and a notification is sent to the destination under %s (at %s); the operator's teardown (%s) takes %s: when that notification makes downstream unsubscribe (Take, First, a terminal), the teardown runs inside it and waits for %s, whose holder waits for %s, which the notifying goroutine holds — a lock-order inversion, Unsubscribe never returns and Collect hangs", lockShort(ed.to), lockShort(k), lockShort(ed.to), c.Prog.Rel(emitHeld[ed.to]), c.Prog.Rel(lockPos), lockShort(k), lockShort(k), lockShort(ed.to))
+				}
 				for _, e := range sc.Emits {
 					if !e.ToDest || e.Forwarder {
 						continue
@@ -692,7 +782,7 @@ func C06() *check.Property {
 			"(run at once if already closed), so it returns iff the subscription is or gets closed; Collect waits on the collecting subscription before every return and returns exactly what its observer gathered; Unsubscribe is idempotent (FINALIZER-DISCIPLINE); no other type shortcuts Wait (WAIT-IMPLEMENTORS); no subject notifies an observer while holding a lock its subscriber teardown takes, so Unsubscribe from inside a callback cannot dead-lock (CALLBACK-REENTRANCY).",
 		NotDecided:  "the real-time ordering 'began afterwards' itself (follows from the compare-and-swap and the gate; argued, not model-checked); concurrent callers beyond the guarded-by discipline.",
 		Assumptions: []string{"sync/atomic, sync.Mutex and channel semantics"},
-		Floors:      map[string]int{"query_methods": 4, "gated_calls": 3, "field_accesses": 8, "subject_deliveries_checked": 3, "scs_with_locking_teardown": 8},
+		Floors:      map[string]int{"query_methods": 4, "gated_calls": 3, "field_accesses": 8, "subject_deliveries_checked": 3, "scs_with_locking_teardown": 8, "teardown_notifications": 1},
 		Controls:    map[string]string{"zz_verif_controls_c06.go": roControl(controlsC06 + controlsTeardownNotify)},
 	}
 }
@@ -791,3 +881,4 @@ func verifControlTeardownNotifies[T any]() func(Observable[T]) Observable[Observ
 	}
 }
 `
+
